@@ -383,6 +383,7 @@ func verifRefDisabledBy(id verifCheckID, n string) bool {
 // parameters: mask, elems, sub, nprom as above; part/parts: chunk of the name list handled by this job; alg: 0 checks{disabled=[N]}  1 checks{enabled=[N]}  2 rule{disable=[N]}
 // 3 --offline (DisableOnlineChecks)  4 --disabled N (SetDisabledChecks, N concrete: one run per documented name)
 // 5 --enabled N (actionSetup stores the flag into Checks.Enabled without validation: N is any string);
+// 6/7 rule{enable=[N]} and rule{disable=[N]} both matching, in either order: disable wins;
 // state: the entry's change state (0 unmodified, 1 added, 2 modified, 3 removed, 4 renamed)
 func VerifHarness_Algebra() {
 	mask, elems, sub, nprom := verifParam("mask"), verifParam("elems"), verifParam("sub"), verifParam("nprom")
@@ -431,6 +432,16 @@ func VerifHarness_Algebra() {
 			cfg.DisableOnlineChecks()
 		case 4:
 			cfg.SetDisabledChecks([]string{n})
+		case 6, 7:
+			// two matching rule{} blocks that disagree: one enables N, another one disables it. The documentation says
+			// `disable` takes precedence over `enable`, whatever the order of the blocks (6: enable first, 7: disable first)
+			en, dis := Rule{Enable: []string{n}}, Rule{Disable: []string{n}}
+			verifAssume(verifAnd(en.validate() == nil, dis.validate() == nil))
+			if alg == 6 {
+				cfg.Rules = append(cfg.Rules, en, dis)
+			} else {
+				cfg.Rules = append(cfg.Rules, dis, en)
+			}
 		}
 		for _, id := range baseIDs {
 			keep := true
@@ -439,7 +450,7 @@ func VerifHarness_Algebra() {
 				keep = !verifRefDisabledBy(id, n)
 			case 1, 5:
 				keep = verifOr(id.reporter == n, id.always)
-			case 2:
+			case 2, 6, 7:
 				keep = id.reporter != n
 			case 3:
 				// --offline = disabling, by name, the checks documented as needing a server (docs/checks/*: "online")
